@@ -55,6 +55,8 @@ var c12Kinds = []string{
 	"presp:late-flood",
 	// an update of the victim could not be sent (connection fault); afterwards more answers for that version arrive than a receiver buffers
 	"uresp:flood-after-failed-send",
+	// a virtual channel settlement proposal that names an ordinary (honest, open) sub-channel of the ledger channel
+	"vsettle:names-sub-channel",
 	// sync
 	"sync:nil-state", "sync:current", "sync:unknown-channel", "sync:while-locked", "sync:phase-garbage",
 }
@@ -203,6 +205,13 @@ func execC12(tt *testing.T, sc *kernel.Scenario, trace bool) *kernel.Result {
 					return true
 				}
 				return false
+			}
+		}
+		for i := range sc.Steps {
+			if sc.Steps[i].Str("kind") == "vsettle:names-sub-channel" && t.subAH[0] == nil {
+				if t.openSubAH(i) {
+					s.Count("probe.honest_sub_channel_open", 1)
+				}
 			}
 		}
 		for k := int64(0); k < sc.Cfg("virtual", 0); k++ {
@@ -870,6 +879,34 @@ func (a *c12adv) build(kind string, r *kernel.Rand, from map[wallet.BackendID]wi
 		return &client.VirtualChannelSettlementProposalMsg{
 			ChannelUpdateMsg: client.ChannelUpdateMsg{ChannelUpdate: client.ChannelUpdate{State: st, ActorIdx: 0}, Sig: signA(st)},
 			Final:            channel.SignedState{Params: vp, State: vs, Sigs: sigs}}
+	case "vsettle:names-sub-channel":
+		// Final = the fully signed current state of the honest sub-channel (the
+		// counterparty holds both signatures), parent update = balance-preserving
+		// removal of its sub-allocation
+		if t.subAH[0] == nil || fromZ {
+			return nil
+		}
+		sub := t.subAH[0]
+		l := t.A.Rec.EnabledOf(sub.ID())
+		if len(l) == 0 {
+			return nil
+		}
+		last := l[len(l)-1]
+		st := next()
+		la, ok := st.SubAlloc(sub.ID())
+		if !ok || st.RemoveSubAlloc(la) != nil {
+			return nil
+		}
+		for i := range st.Balances {
+			for j := range st.Balances[i] {
+				if i < len(last.State.Balances) && j < len(last.State.Balances[i]) {
+					st.Balances[i][j].Add(st.Balances[i][j], last.State.Balances[i][j])
+				}
+			}
+		}
+		return &client.VirtualChannelSettlementProposalMsg{
+			ChannelUpdateMsg: client.ChannelUpdateMsg{ChannelUpdate: client.ChannelUpdate{State: st, ActorIdx: 0}, Sig: signA(st)},
+			Final:            channel.SignedState{Params: sub.Params(), State: last.State.Clone(), Sigs: last.Sigs}}
 	// ---- sync ----------------------------------------------------------------------------------
 	case "sync:nil-state":
 		return &client.ChannelSyncMsg{Phase: channel.Acting}
